@@ -53,6 +53,7 @@ CaseOf(p) ==
    dsts |-> IF Fam = "C04" THEN Dsts(p) ELSE <<>>,
    sites |-> IF Fam = "C20" THEN Sites(p) ELSE <<>>]
 PSeq == SetToSeq(Packets)
-CaseSeq == [i \in 1..Len(PSeq) |-> CaseOf(PSeq[i]) @@ [case |-> i]]
+\* C01: the same object is later rebuilt in place into another packet of the domain (rotated index)
+CaseSeq == [i \in 1..Len(PSeq) |-> CaseOf(PSeq[i]) @@ [case |-> i, p2 |-> PSeq[((i * 37) % Len(PSeq)) + 1]]]
 ASSUME WriteCases(CaseSeq) /\ PrintT(<<"CASES", Len(CaseSeq)>>)
 =============================================================================
